@@ -1,5 +1,6 @@
 import Driver.Util
 import MockeryModel.Sem.Testify
+import MockeryModel.Gen.TestifyEmit
 open Lean Mockery.Sem.Testify
 
 /-! C03: the operation list of the generated Go driver, run through `Sem.Testify`. -/
@@ -20,6 +21,32 @@ def evStr : Ev → String
   | .returned vs => joinSp ("returned" :: vs)
   | .panicked cls => "panic " ++ cls
   | .failed => "failed unexpected-call"
+
+def pairs (j : Json) (k : String) : List (String × String) :=
+  ((Driver.fldOpt j k).bind (fun a => a.getArr?.toOption)).getD #[] |>.toList.filterMap (fun x =>
+    match x.getArr?.toOption.map (·.toList.filterMap (fun y => y.getStr?.toOption)) with
+    | some [a, b] => some (a, b)
+    | _ => none)
+
+open Mockery.Gen.TestifyEmit in
+def shapeOf (j : Json) : Shape :=
+  let s := fun k => (Driver.fldStr j k).toOption.getD ""
+  { structName := s "structName", tconstraint := s "tconstraint", tinst := s "tinst", testify := s "testify", name := s "name",
+    params := pairs j "params",
+    variadic := (match strList j "variadic" with | [a, b] => some (a, b) | _ => none),
+    results := (pairs j "results").map (fun (t, k) => (t, if k == "error" then RKind.error else if k == "nillable" then RKind.nillable else RKind.plain)),
+    unroll := (Driver.fldBool j "unroll").toOption.getD false,
+    retName := s "retName" }
+
+/-- the declarations the template emits per method, printed by the model -/
+def emitted (input : Json) : Option Json :=
+  match (Driver.fldOpt input "shapes").bind (fun a => a.getArr?.toOption) with
+  | none => none
+  | some shapes =>
+    if shapes.isEmpty then none else
+    some (Json.mkObj (shapes.toList.map (fun sj =>
+      let sh := shapeOf sj
+      (sh.name, Json.mkObj ((Mockery.Gen.TestifyEmit.declarations sh).map (fun (k, v) => (k, Json.str v)))))))
 
 def handle (input : Json) : Except String Json := do
   let unroll := (Driver.fldStr input "unroll").toOption.getD "unset" == "true"
@@ -61,6 +88,6 @@ def handle (input : Json) : Except String Json := do
     trace := trace.push (Json.arr (evs.map Json.str).toArray)
     k := k + 1
   trace := trace.push (Json.arr #[Json.str (if assertExpectations mk then "cleanup met" else "cleanup unmet")])
-  pure (Json.mkObj [("trace", Json.arr trace)])
+  pure (Json.mkObj ([("trace", Json.arr trace)] ++ (match emitted input with | some e => [("emitted", e)] | none => [])))
 
 end Driver.C03
